@@ -231,12 +231,17 @@ def matchfile_from_alignment(
             time_divs = int(tsig.start.t)
             time_beats = float(beat_map(time_divs))
             dpq = int(spart.quarter_duration_map(time_divs))
-            beat = int((time_beats - msb) // 1)
 
             ts_num, ts_den, _ = spart.time_signature_map(tsig.start.t)
 
+            # beat within the measure in units of the time signature's beat
+            # type (not quarters); offset from that beat in whole notes (as
+            # for the score notes below)
+            beat = int((time_divs - msd) * int(ts_den) // (dpq * 4))
+
             moffset_divs = Fraction(
-                int(time_divs - msd - beat * dpq), (int(ts_den) * dpq)
+                int((time_divs - msd) * int(ts_den) - beat * dpq * 4),
+                (dpq * 4 * int(ts_den)),
             )
 
             scoreprop_lines["time_signatures"].append(
@@ -265,12 +270,17 @@ def matchfile_from_alignment(
             time_divs = int(ksig.start.t)
             time_beats = float(beat_map(time_divs))
             dpq = int(spart.quarter_duration_map(time_divs))
-            beat = int((time_beats - msb) // 1)
 
             ts_num, ts_den, _ = spart.time_signature_map(ksig.start.t)
 
+            # beat within the measure in units of the time signature's beat
+            # type (not quarters); offset from that beat in whole notes (as
+            # for the score notes below)
+            beat = int((time_divs - msd) * int(ts_den) // (dpq * 4))
+
             moffset_divs = Fraction(
-                int(time_divs - msd - beat * dpq), (int(ts_den) * dpq)
+                int((time_divs - msd) * int(ts_den) - beat * dpq * 4),
+                (dpq * 4 * int(ts_den)),
             )
 
             scoreprop_lines["key_signatures"].append(
